@@ -1,7 +1,7 @@
 #!/usr/bin/env python3
 """Generates /verif/equiv/E*.patch: behaviour-preserving edits of /repo on which every check must stay silent.
 Each edit is (file, old, new); patches are regenerated from the current /repo so they keep applying."""
-import os, subprocess, tempfile, shutil, sys
+import os, re, subprocess, tempfile, shutil, sys
 EDITS = {
  "E01-rename-local-TrimCollinear": [("clipper.go", "	last := path[i]\n	result = append(result, last)\n	for i++; i < l-1; i++ {\n		if isCollinear(last, path[i], path[i+1]) {\n			continue\n		}\n		last = path[i]\n		result = append(result, last)\n	}",
    "	prevKept := path[i]\n	result = append(result, prevKept)\n	for i++; i < l-1; i++ {\n		if isCollinear(prevKept, path[i], path[i+1]) {\n			continue\n		}\n		prevKept = path[i]\n		result = append(result, prevKept)\n	}"),
@@ -53,6 +53,24 @@ EDITS = {
  "E29-quantiser-preallocated-result-name": [("clipper.go", "func ScalePathDToPath64(path PathD, scale float64) Path64 {\n	result := make(Path64, len(path))", "func ScalePathDToPath64(path PathD, scale float64) Path64 {\n	n := len(path)\n	result := make(Path64, n)")],
  "E30-intersectEdges-difference-demorgan": [("clipper_base.go", "			if (getPolyType(ae1) == Clip && e1Wc2 > 0 && e2Wc2 > 0) ||\n				(getPolyType(ae1) == Subject && e1Wc2 <= 0 && e2Wc2 <= 0) {\n				c.addLocalMinPoly(ae1, ae2, pt, false)\n			}",
    "			isClipEdge := getPolyType(ae1) == Clip\n			if (isClipEdge && e1Wc2 > 0 && e2Wc2 > 0) ||\n				(!isClipEdge && !(e1Wc2 > 0) && !(e2Wc2 > 0)) {\n				c.addLocalMinPoly(ae1, ae2, pt, false)\n			}")],
+ # parameter / local renames inside one function: ("@rename", file, function header prefix, {old: new})
+ "E31-rename-params-intersectEdges": [("@rename", "clipper_base.go", "func (c *clipperBase) intersectEdges(", {"ae1": "eA", "ae2": "eB", "pt": "where"})],
+ "E32-rename-param-doHorizontal": [("@rename", "clipper_base.go", "func (c *clipperBase) doHorizontal(", {"horz": "hz", "ae": "cursor"})],
+ "E33-rename-params-buildPath": [("@rename", "clipper_base.go", "func (c *clipperBase) buildPath(", {"op": "start", "isOpen": "open", "path": "dst", "reverse": "rev"})],
+ "E34-rename-params-wrappers": [("@rename", "clipper64.go", "func DifferenceWithClipPaths64(", {"subject": "a", "clip": "b", "fillRule": "fr"}),
+   ("@rename", "clipper64.go", "func BooleanOpPaths64(", {"subject": "a", "clip": "b", "fillRule": "fr", "clipType": "ct"}),
+   ("@rename", "clipperd.go", "func XorWithClipPathsD(", {"subject": "a", "clip": "b", "fillRule": "fr"})],
+ "E35-rename-minkowski-names": [("@rename", "minkowski.go", "func minkowskiInternal(", {"pattern": "shape", "path": "track", "isSum": "add", "isClosed": "closed", "pathPt": "tp", "basePt": "sp", "delta": "step", "g": "prevIdx"}),
+   ("@rename", "minkowski.go", "func MinkowskiSum64(", {"pattern": "shape", "path": "track", "isClosed": "closed"})],
+ "E36-rename-sort-closure-params": [("@rename", "clipper_base.go", "func (c *clipperBase) processIntersectList(", {"i": "p", "j": "q"}), ("@rename", "clipper_base.go", "func (c *clipperBase) reset(", {"i": "p", "j": "q"})],
+ "E37-rename-setWindCount-locals": [("@rename", "clipper_base.go", "func (c *clipperBase) setWindCountForClosedPathEdge(", {"ae2": "scan", "ae": "edge"}),
+   ("@rename", "clipper_base.go", "func (c *clipperBase) setWindCountForOpenPathEdge(", {"ae2": "scan", "ae": "edge", "cnt1": "nSubj", "cnt2": "nClip"})],
+ "E38-rename-params-TrimCollinear-Simplify": [("@rename", "clipper.go", "func TrimCollinear64(", {"path": "in", "isOpen": "open"}),
+   ("@rename", "clipper.go", "func SimplifyPath64(", {"path": "in", "epsilon": "eps", "isClosedPath": "closed"})],
+ "E39-rename-params-offsetPoint": [("@rename", "offset.go", "func (co *ClipperOffset) offsetPoint(", {"group": "grp", "path": "in", "j": "cur", "k": "prev"}),
+   ("@rename", "offset.go", "func (co *ClipperOffset) offsetOpenPath(", {"group": "grp", "path": "in"})],
+ "E40-rename-params-localMaxPoly-InflatePathsD": [("@rename", "clipper_base.go", "func (c *clipperBase) addLocalMaxPoly(", {"ae1": "eA", "ae2": "eB", "pt": "where"}),
+   ("@rename", "offset.go", "func InflatePathsD(", {"delta": "dist", "paths": "in"})],
  "E18-comment-and-blank-lines": [("rect_clip.go", "func (r *RectClip64) getNextLocation(path Path64, loc *Location, i *int, highI int) {\n	switch *loc {", "// getNextLocation advances i to the next vertex that leaves the current location.\nfunc (r *RectClip64) getNextLocation(path Path64, loc *Location, i *int, highI int) {\n\n	switch *loc {")],
 }
 def main():
@@ -62,11 +80,26 @@ def main():
         d = tempfile.mkdtemp(prefix="eq.")
         a, b = os.path.join(d, "a"), os.path.join(d, "b")
         os.makedirs(a); os.makedirs(b)
-        files = sorted(set(e[0] for e in edits))
+        files = sorted(set((e[1] if e[0] == "@rename" else e[0]) for e in edits))
         for f in files:
             shutil.copy("/repo/" + f, a); shutil.copy("/repo/" + f, b)
         ok = True
-        for f, old, new in edits:
+        for e in edits:
+            if e[0] == "@rename":
+                _, f, hdr, ren = e
+                s = open(os.path.join(b, f)).read()
+                if s.count(hdr) != 1:
+                    print(name, "FUNC NOT FOUND (count=%d) %s" % (s.count(hdr), hdr)); ok = False; break
+                st = s.index(hdr); en = s.index("\n}\n", st) + 3
+                body = s[st:en]
+                for o, n in ren.items():
+                    if re.search(r"\b%s\b" % re.escape(n), body):
+                        print(name, "NEW NAME %s ALREADY USED in %s" % (n, hdr)); ok = False
+                    # not after a '.', so fields/methods of the same name stay
+                    body = re.sub(r"(?<![.\w])%s\b" % re.escape(o), n, body)
+                open(os.path.join(b, f), "w").write(s[:st] + body + s[en:])
+                continue
+            f, old, new = e
             s = open(os.path.join(b, f)).read()
             if s.count(old) != 1:
                 print(name, "ANCHOR NOT FOUND (count=%d) in %s" % (s.count(old), f)); ok = False; break
